@@ -23,10 +23,14 @@ def canon(x):
     if from_wn or hasattr(x, 'id'):
         name = type(x).__name__
         if name == 'Relation':
-            return [name, x.name, x.source_id, x.target_id, x._lexicon, canon(x.metadata())]
+            from wnmc.observe import rel_lexicon
+            return [name, x.name, x.source_id, x.target_id, rel_lexicon(x), canon(x.metadata())]
         if name == 'Lexicon':
             return [name, x.specifier()]
-        return [name, getattr(x, 'id', None), getattr(x, '_ili', None) if name == 'Synset' else None]
+        if name == 'Synset':
+            from wnmc.observe import ili_of
+            return [name, getattr(x, 'id', None), ili_of(x)]
+        return [name, getattr(x, 'id', None), None]
     return repr(x)
 
 
@@ -112,7 +116,7 @@ def build_databases(root):
 def use(dirs, name):
     import wn
     from wnmc import env
-    if str(wn.config._data_directory) != dirs[name]:
+    if str(wn.config.data_directory) != dirs[name]:
         env.close_pool()
         wn.config.data_directory = dirs[name]
 
